@@ -119,7 +119,8 @@ func NewManager(privkey types.PrivateKey, store Store, log *zap.Logger) *Manager
 		tg:     threadgroup.New(),
 		store:  store,
 		recorder: &registryAccessRecorder{
-			log: log.Named("recorder"),
+			store: store,
+			log:   log.Named("recorder"),
 		},
 	}
 	done, _ := m.tg.Add()
